@@ -112,6 +112,11 @@ structure Peer where
   ticking : Bool         -- uploadTicker != nil
   deriving Repr
 
+/-- everything the model's peer keeps that traffic can make grow: the sum of the lengths of
+    all list-valued fields of `Peer`.  There is exactly one: a Reject is written at once or
+    the write fails (and the handler returns the error) — it is never remembered. -/
+def Peer.items (p : Peer) : Nat := p.requested.length
+
 def Peer.fresh (fast info : Bool) : Peer :=
   { live := true, dead := false, canFast := fast, hasInfo := info, interested := false,
     amUnchoking := false, requested := [], ticking := false }
